@@ -59,29 +59,24 @@ Theorem C26_ambiguous_is_flagged : forall relaxed vs,
 Proof. exact ambiguous_is_flagged. Qed.
 
 (* relaxed mode, ALL field sequences incl. lists and repeats, restricted to `clean` values (no NUL — which
-   HttpHeader::parse guarantees — and, in fields containing a comma, no VT, FF or double quote): a length is
-   used iff there is at least one occurrence and every occurrence is a one-token decimal of value v.
-   PARTIAL: without the VT/FF exclusion the statement is false (next theorem); quoted strings in lists are
-   covered only by C26_used_value_is_every_examined_occurrence_partial and by the correspondence run *)
+   HttpHeader::parse guarantees — and no double quote in fields containing a comma): a length is used iff
+   there is at least one occurrence and every occurrence is a one-token decimal of value v.
+   PARTIAL only in that quoted strings inside lists are excluded (proof-effort limit); those are covered by
+   C26_used_value_is_every_examined_occurrence_partial and by the correspondence run. VT/FF are no longer
+   excluded (strListGetItem repaired in /repo). *)
 Theorem C26_relaxed_lists_used_iff_all_occurrences_equal_partial : forall vs v,
   (forall f, In f vs -> clean f) ->
   (uses (snd (check_fields true cl_init vs)) v <->
    concat (map occurrences vs) <> [] /\ forall o, In o (concat (map occurrences vs)) -> is_token true o v).
 Proof. exact relaxed_lists_partial. Qed.
 
-(* the full statement for lists ("every comma-separated element is a token of value v") is FALSE for the
-   code as it is: Content-Length: 1,<VT>,5 is used as 1 — finding C26-list-stops-at-vt-item *)
-Theorem C26_relaxed_every_list_element_refuted :
-  exists vs v, uses (snd (check_fields true cl_init vs)) v /\
-    ~ (forall o, In o (concat (map occurrences vs)) -> is_token true o v).
-Proof. exact relaxed_all_occurrences_refuted. Qed.
+(* the former counterexample `1,<VT>,5` is examined to the end and flagged, directly and through HttpHeader::parse *)
+Theorem C26_vt_list_is_flagged : cl_sawBad (snd (check_fields true cl_init [[49; 44; 11; 44; 53]])) = true.
+Proof. exact vt_list_flagged. Qed.
 
-Theorem C26_header_vt_list_refuted :
-  exists r, hdr_parse true false false vt_block = Some r /\ content_length r = 1%Z /\
-    h_conflicting r = false /\
-    exists es, block_entries true false vt_block = Some es /\
-      In [53] (concat (map occurrences (cl_values es))) /\ ~ is_token true [53] 1.
-Proof. exact block_vt_list_refuted. Qed.
+Theorem C26_header_vt_list_is_flagged :
+  exists r, hdr_parse true false false vt_block = Some r /\ content_length r = (-1)%Z /\ h_conflicting r = true.
+Proof. exact block_vt_list_flagged. Qed.
 
 (* HttpHeader::parse, ALL entry lists: callers see a length only if the interpreter uses exactly it,
    no Transfer-Encoding is present, Content-Length is not prohibited, and nothing is flagged *)
@@ -130,9 +125,9 @@ Proof. vm_compute. reflexivity. Qed.
 Example C26_conflict_example : cl_sawBad (snd (check_fields true cl_init [[52; 50]; [52; 51]])) = true.
 Proof. vm_compute. reflexivity. Qed.
 Example C26_clean_list_example :
-  clean [53; 44; 32; 53; 44; 44; 9; 53] /\
-  occurrences [53; 44; 32; 53; 44; 44; 9; 53] = [[53]; [53]; [53]] /\
-  uses (snd (check_fields true cl_init [[53; 44; 32; 53; 44; 44; 9; 53]; [53]])) 5.
+  clean [53; 44; 32; 53; 44; 11; 44; 9; 53] /\
+  occurrences [53; 44; 32; 53; 44; 11; 44; 9; 53] = [[53]; [53]; [53]] /\
+  uses (snd (check_fields true cl_init [[53; 44; 32; 53; 44; 11; 44; 9; 53]; [53]])) 5.
 Proof. vm_compute. repeat split; intros; reflexivity. Qed.
 Example C26_header_example :
   option_map content_length (hdr_parse true false false
@@ -148,8 +143,8 @@ Print Assumptions C26_used_value_is_every_examined_occurrence_partial.
 Print Assumptions C26_used_value_in_range.
 Print Assumptions C26_ambiguous_is_flagged.
 Print Assumptions C26_relaxed_lists_used_iff_all_occurrences_equal_partial.
-Print Assumptions C26_relaxed_every_list_element_refuted.
-Print Assumptions C26_header_vt_list_refuted.
+Print Assumptions C26_vt_list_is_flagged.
+Print Assumptions C26_header_vt_list_is_flagged.
 Print Assumptions C26_header_length_only_when_used.
 Print Assumptions C26_block_length_only_when_used.
 Print Assumptions C26_header_unusable_is_flagged.
